@@ -193,6 +193,11 @@ def c01_catalogue(quick):
            U(3, links=[dict(to=3, spelling='http://a.test/p3#self'), 1])]
     for n in (1, 2, 3):
         out.append(scenario('cycle-spellings-N%d' % n, cyc, N=n))
+    # a fragment may hold "/" and dot segments (client-side routes): it is no part of the path
+    fdot = [U(1, links=[2]), U(2, path='/dir/page.html', links=[dict(to=3, spelling='other.html#/../intro'),
+                                                                 dict(to=4, spelling='/dir/sub/deep.html#a/../../b'), 5]),
+            U(3, path='/dir/other.html'), U(4, path='/dir/sub/deep.html'), U(5, path='/dir/last.html')]
+    out.append(scenario('fragment-with-dot-segments', fdot, N=1))
     # recursive FTP: the entries of a listing are the links of a directory, whatever characters their names have
     out.append(ftp_scenario('ftp-tree-N1'))
     out.append(ftp_odd_names_scenario('ftp-odd-names-N1'))
@@ -572,6 +577,11 @@ def c02_catalogue(quick):
     frag = [U(1, links=[2]), U(2, path='/dir/page.html', links=[dict(to=2, spelling='#top'), dict(to=2, spelling=''), 3]),
             U(3, path='/dir/other.html', links=[dict(to=3, spelling='#'), dict(to=2, spelling='page.html#x')])]
     out.append(scenario('fragment-only-links', frag, N=1))
+    # a fragment may hold "/" and dot segments (client-side routes): it is no part of the path
+    fdot = [U(1, links=[2]), U(2, path='/dir/page.html', links=[dict(to=3, spelling='other.html#/../intro'),
+                                                                 dict(to=4, spelling='/dir/sub/deep.html#a/../../b'), 5]),
+            U(3, path='/dir/other.html'), U(4, path='/dir/sub/deep.html'), U(5, path='/dir/last.html')]
+    out.append(scenario('fragment-with-dot-segments', fdot, N=1))
     # robots.txt is redirected to a URL that a scope rule rejects: such a target is not requested
     rr = {'a.test': {'kind': 'rules', 'disallow': ['/none/'], 'via_redirect': {'path': '/rej/robots-file', 'body_len': 10}}}
     out.append(scenario('robots-redirected-to-rejected-url', [U(1, links=[2]), U(2)], dict(robots=1), N=1, robots=rr))
